@@ -347,6 +347,10 @@ func genC19(t *rapid.T) C19Case {
 				}
 			case "newstring", "parsedecimal":
 				s.S = h.GenDecLiteral(t, "lit", 60, true).S
+				if rapid.IntRange(0, 3).Draw(t, "litfixed") == 0 {
+					// what base 0 adds to plain decimal literals: prefixes, separators, binary exponents, infinities
+					s.S = rapid.SampledFrom([]string{"0x1.8p3", "0X_Ap-2", "0b1011", "0b1.01e2", "0o17", "0o7.4p1", "1_000.5e-3", "1_0", "0x1p-1074", "1.5p-3", "Inf", "-inf", "+Inf", "0b", "0x", "1__0", "_1"}).Draw(t, "litfx")
+				}
 				if rapid.IntRange(0, 5).Draw(t, "bad") == 0 {
 					s.S += "x"
 				}
@@ -501,6 +505,15 @@ func checkC19(c C19Case, o *h.Obs) *h.Fail {
 			if !got.Val().Equal(want.V) {
 				return h.Failf("value", "%s on %v: got %v want %v", where, ops, got.Val(), want.V)
 			}
+			switch s.Op {
+			case "add", "sub", "mul", "quo", "fma", "set":
+				// the accuracy is that of this rounding (C02 through the context), not something an operand brought along
+				// (receiver distinct from the operands only: an aliased receiver is rounded to the context first, and
+				// whether the accuracy then refers to the value before or after that step is not specified)
+				if distinct && model.Acc(got.Acc) != want.Acc {
+					return h.Failf("acc", "%s on %v: value %v with accuracy %v, want %v", where, ops, got.Val(), model.Acc(got.Acc), want.Acc)
+				}
+			}
 			if want.Acc != model.Exact {
 				o.Label("rounded-to-context")
 				if want.V.Form == model.Zero {
@@ -602,7 +615,24 @@ func checkC19(c C19Case, o *h.Obs) *h.Fail {
 			default:
 				have = false // strings and floats: value checked by C12 / C15
 			}
-			if (s.Op == "newstring" && !out.ok) || (s.Op == "parsedecimal" && out.err != nil) {
+			if s.Op == "newstring" || s.Op == "parsedecimal" {
+				// differential: the context's constructor accepts exactly what SetString / Parse(s, 0) accept into a
+				// receiver carrying the context's attributes, with the same result (what those do is C12's business)
+				ref := new(decimal.Decimal).SetMode(decimal.RoundingMode(mode)).SetPrec(prec)
+				_, _, rerr := ref.Parse(s.S, 0)
+				accepted := out.ok
+				if s.Op == "parsedecimal" {
+					accepted = out.err == nil
+				}
+				if accepted != (rerr == nil) {
+					return h.Failf("acceptance", "%s(%q): accepted=%v, Parse(s, 0) into a receiver with the context's attributes: err=%v", where, s.S, accepted, rerr)
+				}
+				if !accepted {
+					continue
+				}
+				if r := h.Read(ref); !r.SameButWords(got) {
+					return h.Failf("value", "%s(%q) = %v, Parse gives %v", where, s.S, got, r)
+				}
 				continue
 			}
 			if got.Prec != prec || got.Mode != mode {
@@ -625,7 +655,7 @@ func checkC19(c C19Case, o *h.Obs) *h.Fail {
 	return nil
 }
 
-const ruleC19 = "rapid state machine: one Context (precision 0..120 (quick) / 600 (thorough), any mode) and four variables with their own precision and mode (finite, zeros, infinities; in one run of four all of them sit at the bottom or at the top end of the exponent range, with shared leading digits, so that differences underflow and sums overflow); steps drawn against the current state from Add/Sub/Mul/Quo/FMA/Sqrt/Neg/Abs/Set (receiver distinct from the operands in 3 of 4 draws, steered now and then to 0/0, Inf-Inf, 0*Inf, Inf/Inf, Sqrt(-x)), Err, SetPrec, SetMode, New/NewInt64/NewUint64/NewInt/NewRat/NewFloat64/NewFloat/NewString/ParseDecimal with valid arguments (NewFloat and NewFloat64 compared with SetFloat/SetFloat64 into a receiver carrying the context's attributes; big.Floats of 1..100 bits also around float64's denormal range), NewFloat64(NaN) (may panic with ErrNaN or record it, but an error recorded earlier must be the one Err() returns), and poison steps (a nil operand makes the wrapped operation panic with a runtime error; or, one time in three, an out-of-range rounding mode makes the rounding step of an inexact operation on scratch variables panic with a plain string). Model of the context (precision, mode, latched): not latched => result == reference operation rounded to the context's precision and mode and the receiver carries them (aliased receivers: operands first rounded to the context, as documented); NaN => no panic, receiver returned, error latched; latched => every operation returns its receiver and all variables are bit-identical; Err() returns an ErrNaN exactly once and re-arms; poison => the panic propagates and nothing is latched. Non-trivial = a run with a NaN step followed by at least two operations and an Err, or with a poison step."
+const ruleC19 = "rapid state machine: one Context (precision 0..120 (quick) / 600 (thorough), any mode) and four variables with their own precision and mode (finite, zeros, infinities; in one run of four all of them sit at the bottom or at the top end of the exponent range, with shared leading digits, so that differences underflow and sums overflow); steps drawn against the current state from Add/Sub/Mul/Quo/FMA/Sqrt/Neg/Abs/Set (receiver distinct from the operands in 3 of 4 draws, steered now and then to 0/0, Inf-Inf, 0*Inf, Inf/Inf, Sqrt(-x)), Err, SetPrec, SetMode, New/NewInt64/NewUint64/NewInt/NewRat/NewFloat64/NewFloat/NewString/ParseDecimal with valid arguments (NewFloat and NewFloat64 compared with SetFloat/SetFloat64 into a receiver carrying the context's attributes; big.Floats of 1..100 bits also around float64's denormal range), NewString/ParseDecimal compared with Parse(s, 0) on decimal, prefixed, separated and malformed literals; NewFloat64(NaN) (may panic with ErrNaN or record it, but an error recorded earlier must be the one Err() returns), and poison steps (a nil operand makes the wrapped operation panic with a runtime error; or, one time in three, an out-of-range rounding mode makes the rounding step of an inexact operation on scratch variables panic with a plain string). Model of the context (precision, mode, latched): not latched => result == reference operation rounded to the context's precision and mode (value; for Add/Sub/Mul/Quo/FMA/Set also the accuracy) and the receiver carries them (aliased receivers: operands first rounded to the context, as documented); NaN => no panic, receiver returned, error latched; latched => every operation returns its receiver and all variables are bit-identical; Err() returns an ErrNaN exactly once and re-arms; poison => the panic propagates and nothing is latched. Non-trivial = a run with a NaN step followed by at least two operations and an Err, or with a poison step."
 
 var propC19 = &h.Prop[C19Case]{ID: "C19", Rule: ruleC19, Gen: genC19, Check: checkC19, Matchers: map[string]func(C19Case) bool{}}
 
